@@ -5,6 +5,7 @@ parsed, registers written (formulas in normal form), row emitted or not, clearin
 end_sequence (G-EXH/G-SIG); extent handling; unit<->program wiring and v5 legacy tables.
 """
 import ast
+from sa.canon import U
 from sa.world import get_world
 from sa import dwconf, layout, expr, paths, streams, dispatch, literals, hrules
 from sa.report import AnalysisError
@@ -93,7 +94,7 @@ def run(ctx):
 
 def check_formatted(ctx, w):
     f = w.model.func('dwarf/structs.py', 'DWARFStructs._create_lineprog_header')
-    src = ast.unparse(f.node)
+    src = U(f.node)
     ok = 'fields = tuple((Rename(f.content_type, self.structs.Dwarf_dw_form[f.form]) for f in context[self.format_field]))' in src and \
         "parser = Struct('formatted_entry', *fields)" in src and 'return parser._parse(stream, context)' in src
     ctx.ob('L-CONF', f.construct, 'v5 entries parsed with the form parser of every format pair, in format order', ok,
@@ -116,7 +117,7 @@ def _branch_sig(body, env):
     tr = expr.assign_trace(mod, env)
     writes = dict((k, v) for k, v in tr.items() if k.startswith('state.') or k == 'state')
     calls = [dispatch.callee_name(c) for c in ast.walk(mod) if isinstance(c, ast.Call) and dispatch.callee_name(c) in ('add_entry_new_state', 'add_entry_old_state')]
-    other = [ast.unparse(s) for s in body if isinstance(s, ast.Expr) and isinstance(s.value, ast.Call) and
+    other = [U(s) for s in body if isinstance(s, ast.Expr) and isinstance(s.value, ast.Call) and
              dispatch.callee_name(s.value) not in ('add_entry_new_state', 'add_entry_old_state', 'struct_parse', 'dwarf_assert')]
     return ops, writes, calls, other, tr
 
@@ -202,7 +203,7 @@ def _check_chain(ctx, f, chains, spec, prefix, consts, env_for, extended):
             # the reset after the row is checked separately
             reset = w2.pop('state', None)
             ctx.ob('G-SIG', f.construct, name + ' resets every register afterwards', reset == [('=', 'LineState(default_is_stmt)')], got=reset)
-            order = [ast.unparse(s).split('(')[0] for s in b.body]
+            order = [U(s).split('(')[0] for s in b.body]
             ctx.ob('G-SIG', f.construct, name + ' order: set flag, append row, reset', order[-2:] == ['add_entry_new_state', 'state = LineState'] and
                    order[0] == 'state.end_sequence = True', got=order)
         for reg in sorted(want_w):
@@ -220,12 +221,12 @@ def _check_chain(ctx, f, chains, spec, prefix, consts, env_for, extended):
     for v in sorted(set(seen) - set(byval)):
         ctx.note('state machine handles opcode value %r without a constant name (listed)' % (v,))
     if extended:
-        ok = else_body is not None and [ast.unparse(s) for s in else_body] == ['self.stream.seek(inst_len - 1, os.SEEK_CUR)']
+        ok = else_body is not None and [U(s) for s in else_body] == ['self.stream.seek(inst_len - 1, os.SEEK_CUR)']
         ctx.ob('G-SIG', f.construct, 'unknown extended opcode skipped by its length (len - 1 after the opcode byte)', ok,
-               got=[ast.unparse(s) for s in else_body] if else_body else None)
+               got=[U(s) for s in else_body] if else_body else None)
     else:
         # unknown standard opcode: its ULEB operands are skipped per standard_opcode_lengths (§6.2.4 item 10, §6.2.5.2)
-        src = ' '.join(ast.unparse(s) for s in else_body) if else_body else ''
+        src = ' '.join(U(s) for s in else_body) if else_body else ''
         ok = 'standard_opcode_lengths' in src and 'the_Dwarf_uleb128' in src and 'opcode - 1' in src and 'dwarf_assert(False' not in src
         ctx.ob('G-SIG', f.construct, 'unknown standard opcode: operands skipped via standard_opcode_lengths[opcode - 1]', ok, got=src[:120],
                msg='a standard opcode the library does not know (opcode_base > 13) must be skipped using the operand counts of the header, not rejected')
@@ -233,7 +234,7 @@ def _check_chain(ctx, f, chains, spec, prefix, consts, env_for, extended):
 
 def check_rows(ctx, w):
     f = w.model.func(LP, 'LineProgram._decode_line_program.<locals>.add_entry_new_state')
-    body = [ast.unparse(s) for s in f.node.body]
+    body = [U(s) for s in f.node.body]
     want = ['entries.append(LineProgramEntry(cmd, is_extended, args, copy.copy(state)))', 'state.discriminator = 0', 'state.basic_block = False',
             'state.prologue_end = False', 'state.epilogue_begin = False']
     ctx.ob('W-ROW', f.construct, 'row = copy of the current registers, appended first', body[:1] == want[:1], got=body[:1])
@@ -241,7 +242,7 @@ def check_rows(ctx, w):
         ctx.ob('W-ROW', f.construct, 'after a row: ' + s, s in body[1:], got=body, msg='register not cleared after a row (DWARF 5 §6.2.5.1 steps 5-8)')
     ctx.ob('W-ROW', f.construct, 'nothing else cleared', len(body) == 5, got=body)
     g = w.model.func(LP, 'LineProgram._decode_line_program.<locals>.add_entry_old_state')
-    ctx.ob('W-ROW', g.construct, 'bookkeeping entry carries no state', [ast.unparse(s) for s in g.node.body] == ['entries.append(LineProgramEntry(cmd, is_extended, args, None))'])
+    ctx.ob('W-ROW', g.construct, 'bookkeeping entry carries no state', [U(s) for s in g.node.body] == ['entries.append(LineProgramEntry(cmd, is_extended, args, None))'])
     h = w.model.func(LP, 'LineState.__init__')
     tr = expr.assign_trace(h.node, expr.FEnv(h.node, params=('default_is_stmt',)))
     for reg, v in sorted(INITIAL.items()):
@@ -263,9 +264,9 @@ def check_extent(ctx, w):
     tr = expr.assign_trace(f.node, env)
     ctx.ob('W-EXT', f.construct, 'offset from program_start_offset, then tell() after each instruction',
            tr.get('offset') == [('=', 'program_start_offset'), ('=', 'tell(stream)')], got=tr.get('offset'))
-    ctx.ob('W-EXT', f.construct, 'opcode byte re-read at offset', ast.unparse(loop.body[0]).replace('\n', '') ==
-           'opcode = struct_parse(self.structs.the_Dwarf_uint8, self.stream, offset)', got=ast.unparse(loop.body[0]))
-    ctx.ob('W-EXT', f.construct, 'offset update is the unconditional last step', ast.unparse(loop.body[-1]) == 'offset = self.stream.tell()')
+    ctx.ob('W-EXT', f.construct, 'opcode byte re-read at offset', U(loop.body[0]).replace('\n', '') ==
+           'opcode = struct_parse(self.structs.the_Dwarf_uint8, self.stream, offset)', got=U(loop.body[0]))
+    ctx.ob('W-EXT', f.construct, 'offset update is the unconditional last step', U(loop.body[-1]) == 'offset = self.stream.tell()')
     g = w.model.func(LP, 'LineProgram.get_entries')
     tr = expr.assign_trace(g.node, expr.FEnv(g.node))
     ctx.ob('W-EXT', g.construct, 'decoded once, memoised', tr.get('self._decoded_entries') == [('=', '_decode_line_program(self)')] and
@@ -289,8 +290,8 @@ def check_wiring(ctx, w):
     kw = dict((k.arg, expr.nfs(k.value, env)) for k in mk[0].keywords) if mk else None
     want = {'header': 'lineprog_header', 'stream': 'stream', 'structs': 'structs', 'program_start_offset': 'tell(stream)', 'program_end_offset': 'end_offset'}
     ctx.ob('W-WIRE', f.construct, 'program starts where the header ended', kw == want, got=kw, expected=want)
-    ctx.ob('W-WIRE', f.construct, 'on .debug_line', ast.unparse(f.node).count('self.debug_line_sec.stream') == 3)
-    src = ast.unparse(f.node)
+    ctx.ob('W-WIRE', f.construct, 'on .debug_line', U(f.node).count('self.debug_line_sec.stream') == 3)
+    src = U(f.node)
     ctx.ob('W-WIRE', f.construct, 'cache keyed by offset', 'if offset in self._linetable_cache:' in src and 'self._linetable_cache[offset] = lineprogram' in src)
     # v5 string resolution by form
     g = w.model.func(DI, 'DWARFInfo._parse_line_program_at_offset.<locals>.resolve_strings')
@@ -301,7 +302,7 @@ def check_wiring(ctx, w):
         for b in chains[0]:
             if b.is_else:
                 continue
-            calls = [ast.unparse(c.args[2]) for c in ast.walk(ast.Module(body=b.body, type_ignores=[])) if isinstance(c, ast.Call) and dispatch.callee_name(c) == 'replace_value']
+            calls = [U(c.args[2]) for c in ast.walk(ast.Module(body=b.body, type_ignores=[])) if isinstance(c, ast.Call) and dispatch.callee_name(c) == 'replace_value']
             for k in b.keys:
                 got.setdefault(k, calls)
     ctx.ob('W-WIRE', g.construct, 'line_strp -> .debug_line_str', got.get('DW_FORM_line_strp') == ['self.get_string_from_linetable'], got=got.get('DW_FORM_line_strp'))
@@ -315,16 +316,16 @@ def check_wiring(ctx, w):
     ctx.ob('W-WIRE', f.construct, 'legacy file_entry mapping path/directory_index/timestamp/size', want_map in src and 'for e in lineprog_header.file_names' in src)
     h = w.model.func(DI, 'DWARFInfo.line_program_for_CU')
     henv = expr.FEnv(h.node, params=('CU',))
-    rp = [([(expr.cond_str(t, henv), pol) for t, pol in c], expr.nfs(r, henv)) for c, r, p in paths.returns_with_conds(h.node)]
-    src_h = ast.unparse(h.node)
+    rp = [([expr.CP(expr.cond_str(t, henv), pol) for t, pol in c], expr.nfs(r, henv)) for c, r, p in paths.returns_with_conds(h.node)]
+    src_h = U(h.node)
     ok = "if 'DW_AT_stmt_list' in top_DIE.attributes:" in src_h and \
         "return self._parse_line_program_at_offset(top_DIE.attributes['DW_AT_stmt_list'].value, CU.structs)" in src_h and \
         sorted(r[1] for r in rp) == ['None', '_parse_line_program_at_offset(self,value,structs)']
     ctx.ob('W-WIRE', h.construct, 'program at the top DIE\'s DW_AT_stmt_list with the unit\'s structs', ok, got=rp)
-    ctx.ob('W-WIRE', h.construct, 'top DIE of the given unit', 'top_DIE = CU.get_top_DIE()' in ast.unparse(h.node))
+    ctx.ob('W-WIRE', h.construct, 'top DIE of the given unit', 'top_DIE = CU.get_top_DIE()' in U(h.node))
     for q, sec in (('DWARFInfo.get_string_from_table', 'debug_str_sec'), ('DWARFInfo.get_string_from_linetable', 'debug_line_str_sec')):
         k = w.model.func(DI, q)
-        ctx.ob('W-WIRE', k.construct, 'C string at offset in ' + sec, [ast.unparse(r.value) for r in expr.returns_of(k.node)] ==
+        ctx.ob('W-WIRE', k.construct, 'C string at offset in ' + sec, [U(r.value) for r in expr.returns_of(k.node)] ==
                ['parse_cstring_from_stream(self.%s.stream, offset)' % sec])
 
 
